@@ -1123,8 +1123,8 @@ func genScenario(r *rand.Rand, id int, class string) *Scenario {
 			}
 			sc.Faults = append(sc.Faults, Fault{AtUs: 200000, Kind: "kill", Host: target})
 		}
-	case "staleasync": // NOT in the default tiers (VERIF_C18_STALEASYNC=1): the documented stale-epoch re-creation with a
-		// no-deadline call pending on the stream whose loop loses the epoch CAS -- that call never completes
+	case "staleasync": // calls without deadline (sync 30 s / async) pending on the stream whose loop LOSES the epoch CAS:
+		// they must be failed by the stream error like the winner's (fix a827fda), not left in flight
 		sc.NHosts = 2
 		sc.DelayUs, sc.Reorder = 200, 0
 		a := r.Intn(2)
@@ -1199,16 +1199,13 @@ func main() {
 	}
 	tier := os.Getenv("VERIF_TIER")
 	r := rand.New(rand.NewSource(seed*7919 + 17))
-	classes := []string{"plain", "forward", "streamfail", "cancel", "close", "staleepoch", "multiconn", "rebreak", "sendpanic"}
-	rounds := 7
+	classes := []string{"plain", "forward", "streamfail", "cancel", "close", "staleepoch", "multiconn", "rebreak", "sendpanic", "staleasync"}
+	rounds := 10
 	if tier == "thorough" {
 		rounds = 150
 	}
 	if v, _ := strconv.Atoi(os.Getenv("VERIF_ROUNDS")); v > 0 {
 		rounds = v
-	}
-	if os.Getenv("VERIF_C18_STALEASYNC") == "1" {
-		classes = append(classes, "staleasync")
 	}
 	only := os.Getenv("VERIF_CLASS")
 	id := 0
